@@ -181,7 +181,7 @@ func (w *c04World) settle(l2Block uint64) ([]c04Claimed, error) {
 	}
 	if w.restartL1 {
 		// L1 is restarted from its exported genesis between finalization and the claims (claims have no deadline)
-		tc.restartL1()
+		tc.restartL1(len(w.outs)%2 == 0)
 		w.notes = append(w.notes, "L1 restarted from its exported genesis before the claims")
 	}
 	var out []c04Claimed
@@ -284,7 +284,14 @@ func TestC04Rapid(t *testing.T) {
 			if nOps > 12 {
 				amt = math.NewInt(int64(rapid.IntRange(1, 1000).Draw(rt, "small")))
 			}
-			switch drawWeighted(rt, "op", []weighted{{"deposit-withdraw", 6}, {"refund", 4}, {"withdraw-more", 2}, {"hook-withdraw", 3}, {"failing-hook", 3}, {"commit-output", 2}, {"withdraw-native", 1}}) {
+			switch drawWeighted(rt, "op", []weighted{{"deposit-withdraw", 6}, {"refund", 4}, {"withdraw-more", 2}, {"hook-withdraw", 3}, {"failing-hook", 3}, {"commit-output", 2}, {"withdraw-native", 1}, {"restart-l1", 1}}) {
+			case "restart-l1":
+				// L1 is restarted from its exported genesis in the middle of the history; the new chain may number its
+				// blocks from 1 again. Outputs keep their windows, the proposer goes on proposing.
+				re := rapid.Bool().Draw(rt, "renumberHeights")
+				tc.restartL1(re)
+				log = append(log, fmt.Sprintf("L1 restarted from its exported genesis (heights renumbered: %v)", re))
+				c.Class("l1-restarted-inside-the-history")
 			case "withdraw-native":
 				// a token that was never bridged (native to L2, with ordinary bank metadata): if L2 records a withdrawal
 				// of it, that record has to be claimable like any other - L1 holds nothing of it, so L2 must refuse
